@@ -14,6 +14,7 @@ theorem next_eq (s : AverageTrueRange F) (x : F) :
               ema := ExponentialMovingAverage.step s.ema (TrueRange.out s.true_range x) },
             (ExponentialMovingAverage.step s.ema (TrueRange.out s.true_range x)).current) := by
   unfold next
+  try simp only [gen_helper]
   simp [TrueRange.next_eq, ExponentialMovingAverage.next_eq]
 
 /-- ATR = EMA fed with TrueRange (bar path) -/
@@ -23,6 +24,7 @@ theorem nextBar_eq (s : AverageTrueRange F) (b : Bar F) :
               ema := ExponentialMovingAverage.step s.ema (TrueRange.outBar s.true_range b) },
             (ExponentialMovingAverage.step s.ema (TrueRange.outBar s.true_range b)).current) := by
   unfold nextBar
+  try simp only [gen_helper]
   simp [TrueRange.nextBar_eq, ExponentialMovingAverage.next_eq]
 
 theorem next_total (s : AverageTrueRange F) (x : F) (h : WF s) :
